@@ -26,10 +26,10 @@ type Universe struct {
 }
 
 type structInfo struct {
-	name   string
-	ctor   string
-	fields []string // selector names
-	fsorts []Sort
+	name    string
+	ctor    string
+	fields  []string // selector names
+	fsorts  []Sort
 	gonames []string
 }
 
@@ -204,7 +204,9 @@ func (u *Universe) sortOf1(t types.Type, key string) Sort {
 	return SInt
 }
 
-func sortIdent(s Sort) string { return mangle(strings.NewReplacer("(", "L", ")", "R", " ", "_").Replace(string(s))) }
+func sortIdent(s Sort) string {
+	return mangle(strings.NewReplacer("(", "L", ")", "R", " ", "_").Replace(string(s)))
+}
 
 func (u *Universe) sliceSort(es Sort) Sort {
 	name := "Slice_" + sortIdent(es)
